@@ -88,9 +88,17 @@ class _Lock(object):
 
 def sh(cmd, timeout=600, cwd=None, env=None, input=None):
     """Run a command; returns (rc, combined output). Never raises on timeout."""
+    def big_stack():
+        # coqc parses the case literals the harness writes recursively: the default 8 MB stack overflows on large ones
+        try:
+            import resource
+            soft, hard = resource.getrlimit(resource.RLIMIT_STACK)
+            resource.setrlimit(resource.RLIMIT_STACK, (hard, hard))
+        except Exception:   # noqa
+            pass
     try:
         p = subprocess.run(cmd, cwd=cwd, env=env, input=input, stdout=subprocess.PIPE,
-                           stderr=subprocess.STDOUT, timeout=timeout, text=True)
+                           stderr=subprocess.STDOUT, timeout=timeout, text=True, preexec_fn=big_stack)
         return p.returncode, p.stdout
     except subprocess.TimeoutExpired as e:
         out = e.stdout or ''
